@@ -725,6 +725,9 @@ func c20ExtractRegions(repo string) (*c20Regions, error) {
 			if x.src(v.X) == "reloadManager.reloadReqs" {
 				workerBody = v.Body.List
 				nWorker++
+				if id, ok := v.Key.(*ast.Ident); ok && id.Name != "req" && id.Name != "_" {
+					x.alias[id.Name] = "req"
+				}
 			}
 		case *ast.CommClause:
 			switch x.src(v.Comm) {
@@ -775,6 +778,10 @@ func c20ExtractRegions(repo string) (*c20Regions, error) {
 	x.guards = map[string]bool{}
 	r.signals = norm(x.block(signalBody), "next")
 	x.pins = nil
+	// where the request's arrival time and abort decision come from and where they go
+	fact("flow signals " + x.flowFact(signalBody))
+	fact("flow worker " + x.flowFact(workerBody))
+	fact("flow handler " + x.flowFact(handlerBody))
 	// ---- constructor lines of Run (outside the three regions)
 	startupSeen := false
 	ast.Inspect(run.Body, func(n ast.Node) bool {
@@ -868,6 +875,117 @@ func c20ExtractRegions(repo string) (*c20Regions, error) {
 	r.stats["stmts_walked"] = x.nStmts + y.nStmts
 	r.stats["ifs_walked"] = x.nIf
 	return r, nil
+}
+
+// flowFact: the arguments that carry the request's arrival time and abort decision, with locals resolved
+// to what they were defined as (`reloadStartedAt := req.requestedAt` → `req.requestedAt`), so that
+// renaming a local does not change the fact while passing something else does:
+//
+//	queue{requestedAt:…,abort:…}          the request literal of reloadManager.queueReloadRequest
+//	setmeta(a,b)                           reloadManager.setPendingReloadMetadata(a, b)
+//	setstaged(a,b){abort:…,overlap:…}      reloadManager.setPendingStagedHandoff(&stagedReloadHandoff{…}, a, b)
+//	startret(abort,overlap)                the last two arguments of reloadManager.startControlPlaneRetirement
+func (x *c20Extractor) flowFact(body []ast.Stmt) string {
+	defs := map[string]string{}
+	record := func(name, rhs string) {
+		if old, ok := defs[name]; ok && old != rhs {
+			defs[name] = "?redefined(" + name + ")"
+			return
+		}
+		defs[name] = rhs
+	}
+	canon := func(e ast.Expr) string {
+		if id, ok := c20Unparen(e).(*ast.Ident); ok {
+			if d, ok := defs[id.Name]; ok {
+				return d
+			}
+		}
+		return strings.ReplaceAll(x.src(e), " ", "")
+	}
+	cnt := map[string]int{}
+	litField := func(e ast.Expr, names ...string) []string {
+		out := make([]string, len(names))
+		for i := range out {
+			out[i] = "?missing"
+		}
+		if u, ok := c20Unparen(e).(*ast.UnaryExpr); ok {
+			e = u.X
+		}
+		if cl, ok := c20Unparen(e).(*ast.CompositeLit); ok {
+			for _, el := range cl.Elts {
+				if kv, ok := el.(*ast.KeyValueExpr); ok {
+					for i, n := range names {
+						if x.rawSrc(kv.Key) == n {
+							out[i] = canon(kv.Value)
+						}
+					}
+				}
+			}
+		}
+		return out
+	}
+	for _, st := range body {
+		ast.Inspect(st, func(n ast.Node) bool {
+			switch v := n.(type) {
+			case *ast.AssignStmt:
+				if len(v.Lhs) == len(v.Rhs) {
+					for i, l := range v.Lhs {
+						id, ok := l.(*ast.Ident)
+						if !ok || id.Name == "_" {
+							continue
+						}
+						switch rv := c20Unparen(v.Rhs[i]).(type) {
+						case *ast.SelectorExpr:
+							record(id.Name, strings.ReplaceAll(x.src(rv), " ", ""))
+						case *ast.CallExpr:
+							if se, ok := rv.Fun.(*ast.SelectorExpr); ok && se.Sel.Name == "InheritDialerHealthFrom" {
+								record(id.Name, "InheritDialerHealthFrom")
+							} else if _, known := defs[id.Name]; known {
+								record(id.Name, "?"+strings.ReplaceAll(x.src(rv), " ", ""))
+							}
+						default:
+							if _, known := defs[id.Name]; known {
+								record(id.Name, "?"+strings.ReplaceAll(x.src(v.Rhs[i]), " ", ""))
+							}
+						}
+					}
+				}
+			case *ast.CallExpr:
+				switch x.src(v.Fun) {
+				case "reloadManager.queueReloadRequest":
+					if len(v.Args) >= 1 {
+						f := litField(v.Args[len(v.Args)-1], "requestedAt", "abortConnections")
+						cnt["queue{requestedAt:"+f[0]+",abort:"+f[1]+"}"]++
+					}
+				case "reloadManager.setPendingReloadMetadata":
+					if len(v.Args) == 2 {
+						cnt["setmeta("+canon(v.Args[0])+","+canon(v.Args[1])+")"]++
+					}
+				case "reloadManager.setPendingStagedHandoff":
+					if len(v.Args) == 3 {
+						f := litField(v.Args[0], "abortConnections", "hasOverlap")
+						cnt["setstaged("+canon(v.Args[1])+","+canon(v.Args[2])+"){abort:"+f[0]+",overlap:"+f[1]+"}"]++
+					}
+				case "reloadManager.startControlPlaneRetirement":
+					if len(v.Args) == 6 {
+						cnt["startret("+canon(v.Args[4])+","+canon(v.Args[5])+")"]++
+					} else {
+						cnt["startret(?arity)"]++
+					}
+				}
+			}
+			return true
+		})
+	}
+	var ks []string
+	for k, n := range cnt {
+		ks = append(ks, fmt.Sprintf("%s*%d", k, n))
+	}
+	sort.Strings(ks)
+	if len(ks) == 0 {
+		return "none"
+	}
+	return strings.Join(ks, " ")
 }
 
 // c20ExtractCLI: the `dae reload` / `dae suspend` cobra closures (cmd/reload.go, cmd/suspend.go).
